@@ -175,7 +175,7 @@ class MempoolClient(BaseClient):
 
     def blockcount(self):
         res = self.compose_request('blocks', 'tip', 'height')
-        return res
+        return int(res)
 
     def mempool(self, txid=''):
         txids = self.compose_request('mempool', 'txids')
